@@ -77,3 +77,5 @@ func c05drv(args []string) int {
 }
 
 func sqlittleOpen(path string) (*sqlittle.DB, error) { return sqlittle.Open(path) }
+
+func init() { extraCmd("agent", func([]string) int { return agentMain() }) }
